@@ -450,6 +450,9 @@ COMPONENTS['insitu_bulkhead'] = _insitu('bulkhead', 3)
 COMPONENTS['insitu2_timelimiter'] = _insitu('timelimiter', 1, 'S2')
 COMPONENTS['insitu_fallback'] = _insitu('fallback', 2, 'S2')
 COMPONENTS['insitu_retry'] = _insitu('retry', 3, 'S2')
+COMPONENTS['insitu_adaptive'] = _insitu('adaptive', 1, 'S3')
+COMPONENTS['insitu_ratelimiter'] = _insitu('ratelimiter', 2, 'S3')
+COMPONENTS['insitu_coalesce'] = _insitu('coalesce', 3, 'S3')
 
 PROPS = {
     'C01': {'comp': 'bulkhead', 'profile': 'ProfC01', 'drift_profile': 'ProfAll',
@@ -457,7 +460,10 @@ PROPS = {
             'random': {'quick': [{'runs': 1500}, {'runs': 700, 'args': ['--variant', 'lazy']}],
                        'thorough': [{'runs': 20000}, {'runs': 5000, 'size': 'quick'}, {'runs': 8000, 'args': ['--variant', 'lazy']}]}},
     'C07': {'comp': 'bulkhead', 'profile': 'ProfC07', 'drift_profile': 'ProfAll'},
-    'C03': {'comp': 'circuitbreaker', 'profile': 'ProfC03', 'drift_profile': 'ProfAll'},
+    'C03': {'comp': 'circuitbreaker', 'profile': 'ProfC03', 'drift_profile': 'ProfAll',
+            # second batch: late polls - futures created in one state are first polled in another (the shield does not depend on promptness)
+            'random': {'quick': [{'runs': 1500, 'args': ['--variant', 'conc']}, {'runs': 600, 'args': ['--variant', 'lazyc']}],
+                       'thorough': [{'runs': 15000, 'args': ['--variant', 'conc']}, {'runs': 6000, 'args': ['--variant', 'lazyc']}]}},
     'C09': {'comp': 'circuitbreaker', 'profile': 'ProfC09', 'drift_profile': 'ProfAll',
             'random': {'quick': [{'runs': 800, 'args': ['--variant', 'conc']}, {'runs': 1500, 'args': ['--variant', 'storm']}],
                        'thorough': [{'runs': 10000, 'args': ['--variant', 'conc']}, {'runs': 20000, 'args': ['--variant', 'storm']}]}},
@@ -476,11 +482,9 @@ PROPS = {
     'C18': {'comp': 'health', 'profile': 'full'},
     'C19': {'comp': 'chaos', 'profile': 'full'},
     'C17': {'comp': 'fallback', 'profile': 'full'},
-    'C20': {'parts': [{'comp': 'stacks', 'profile': 'transparent+readiness'}, {'comp': 'listeners', 'profile': 'listeners'}, {'comp': 'executor', 'profile': 'executor'},
-                      # a stack in triggering configurations: every layer conforms to its own specification in situ
-                      {'comp': 'insitu_timelimiter', 'profile': 'full'}, {'comp': 'insitu_circuitbreaker', 'profile': 'ProfAll'},
-                      {'comp': 'insitu_bulkhead', 'profile': 'ProfBoth'},
-                      {'comp': 'insitu2_timelimiter', 'profile': 'full'}, {'comp': 'insitu_fallback', 'profile': 'full'}, {'comp': 'insitu_retry', 'profile': 'full'}]},
+    # (the in-situ projections are parts of the component properties, under each property's own profile: C20 does not
+    #  speak about admission, capacity or timing, so full-behaviour profiles would demand more than it states)
+    'C20': {'parts': [{'comp': 'stacks', 'profile': 'transparent+readiness'}, {'comp': 'listeners', 'profile': 'listeners'}, {'comp': 'executor', 'profile': 'executor'}]},
     'C02': {'comp': 'ratelimiter', 'profile': 'ProfC02', 'drift_profile': 'ProfAll',
             # second batch: waiters polled late - the bound on admissions does not depend on promptness
             'random': {'quick': [{'runs': 1500}, {'runs': 700, 'args': ['--variant', 'lazy']}],
@@ -504,6 +508,10 @@ _add_insitu('C06', 'insitu_timelimiter', 'full')
 _add_insitu('C06', 'insitu2_timelimiter', 'full')
 _add_insitu('C05', 'insitu_retry', 'full')
 _add_insitu('C17', 'insitu_fallback', 'full')
+_add_insitu('C13', 'insitu_adaptive', 'service')
+_add_insitu('C02', 'insitu_ratelimiter', 'ProfC02')
+_add_insitu('C15', 'insitu_ratelimiter', 'ProfC15')
+_add_insitu('C11', 'insitu_coalesce', 'full')
 _add_insitu('C01', 'insitu_bulkhead', 'ProfC01')
 _add_insitu('C07', 'insitu_bulkhead', 'ProfC07')
 _add_insitu('C03', 'insitu_circuitbreaker', 'ProfC03')
